@@ -363,6 +363,10 @@ Definition check_nostd (g : cgraph) (bc : buildcfg) : bool :=
 
 Definition check_noalloc (g : cgraph) (bc : buildcfg) : bool := all_active g bc (class_noalloc bc).
 
+(* The crate is `#![no_std]` EXACTLY when the cargo feature `std` is off (lib.rs:
+   `#![cfg_attr(not(feature = "std"), no_std)]`), whatever the architecture / nightly / target features. *)
+Definition check_nostd_attr (g : cgraph) (bc : buildcfg) : bool := Bool.eqb (has_no_std g bc) (negb (bc_std bc)).
+
 (* Unstable `#![feature(..)]` gates are switched on only by the `nightly` feature (so a stable toolchain builds
    every configuration without it). *)
 Definition check_gates (g : cgraph) (bc : buildcfg) : bool :=
@@ -396,7 +400,7 @@ Definition all_configs : list buildcfg :=
 
 Definition check_all (g : cgraph) : bool :=
   graph_wf g && check_manifest g
-  && forallb (fun bc => check_nostd g bc && check_noalloc g bc && check_gates g bc) all_configs.
+  && forallb (fun bc => check_nostd g bc && check_noalloc g bc && check_gates g bc && check_nostd_attr g bc) all_configs.
 
 (** * Reporting helpers (used by checks/c14.py to name the culprit and to predict what the build references) *)
 
@@ -441,6 +445,32 @@ Definition class_present (g : cgraph) (bc : buildcfg) (c : mclass) : bool :=
     (cg_items g).
 Definition active_classes (g : cgraph) (bc : buildcfg) : list string :=
   map class_name (filter (class_present g bc) all_classes).
+
+(* Distinct paths (as written) of the active mentions of class [c] in [bc]: with c = ClStdAudited this is the model's
+   prediction of what a std build references outside core (feature detection, inherent float functions). *)
+Fixpoint dedup_strings (l : list string) : list string :=
+  match l with
+  | [] => []
+  | x :: r => if mem_string x r then dedup_strings r else x :: dedup_strings r
+  end.
+Definition active_paths_of_class (g : cgraph) (bc : buildcfg) (c : mclass) : list string :=
+  let e := mk_env g in
+  dedup_strings (flat_map (fun it =>
+    if item_active g bc it then
+      flat_map (fun m => if eval_cfg bc (mn_cfg m) && mclass_eqb (classify_e e m) c
+                         then [match mn_kind m with
+                               | MkMacro => (mn_path m ++ "!")%string
+                               | MkFloatFn => mn_path m
+                               | _ => mn_path m
+                               end]
+                         else []) (it_mentions it)
+    else []) (cg_items g)).
+
+(* `extern crate` items compiled in [bc]. *)
+Definition active_extern_crates (g : cgraph) (bc : buildcfg) : list string :=
+  flat_map (fun it => match it_kind it with
+                      | IExternCrate => if item_active g bc it then [it_name it] else []
+                      | _ => [] end) (cg_items g).
 
 Definition count_active (g : cgraph) (bc : buildcfg) : N :=
   N.of_nat (length (filter (item_active g bc) (cg_items g))).
